@@ -2,6 +2,7 @@ import Driver.Proto
 import Driver.CmdFilter
 import Driver.CmdCtl
 import Driver.CmdLog
+import Driver.CmdPipe
 open Lean Driver
 
 def dispatch (cmd : String) (j : Json) : R Json :=
@@ -11,6 +12,8 @@ def dispatch (cmd : String) (j : Json) : R Json :=
   | "prop.filter" => cmdPropFilter j
   | "ctl.replay" => cmdCtlReplay j
   | "log.run" => cmdLogRun j
+  | "pipe.run" => cmdPipeRun j
+  | "mesh.bounds" => cmdMeshBounds j
   | _ => throw s!"unknown command '{cmd}'"
 
 def handleLine (line : String) : String :=
